@@ -339,6 +339,19 @@ class K7Adapter(CaseAdapter):
         return CaseAdapter.search(self, prop, tier, seed, mismatches)
 
 
+class K3DetAdapter(CaseAdapter):
+    module_name = 'k3det'
+    label = 'K3D (harness/k3det.py)'
+    N = dict(quick=150, thorough=3000)
+    SEARCH = dict(quick=300, thorough=3000)
+    rule = ('broker operation sequences (as K3) with the broker\'s own random order identifiers, each run twice in-process and once per '
+            'hash seed in fresh interpreters; traces compared bit for bit with the identifiers erased; non-trivial = at least one fill')
+    assumptions = ['identifiers are erased before comparison (the property excepts them)']
+
+    def accepts(self, case):
+        return 'ops' in case and bool(case.get('auto_ids'))
+
+
 class Composite(object):
     """Several harnesses decide one property: results are concatenated, coverage is summed / nested."""
     parts = ()
@@ -400,6 +413,10 @@ class C03Adapter(Composite):
     parts = (K3Adapter, K3PAdapter)
 
 
+class C18Adapter(Composite):
+    parts = (K7Adapter, K3DetAdapter)
+
+
 class K4K7Adapter(Composite):
     parts = (K4Adapter, K7Adapter)
 
@@ -417,4 +434,5 @@ PROPS['C16'] = K5K7Adapter
 PROPS['C17'] = K6Adapter
 PROPS.update({p: K4Adapter for p in ('C10', 'C11')})
 PROPS.update({p: K4K7Adapter for p in ('C09', 'C19')})
-PROPS.update({p: K7Adapter for p in ('C07', 'C08', 'C14', 'C18')})
+PROPS.update({p: K7Adapter for p in ('C07', 'C08', 'C14')})
+PROPS['C18'] = C18Adapter
